@@ -41,6 +41,10 @@ class PyprojectWriter(DependencyWriter):
             tomlkit.dumps(original).split("\n"), tomlkit.dumps(pyproject).split("\n")
         )
 
+        if not diff:
+            # nothing was added, e.g. the package is already declared in a form the parser does not read
+            return None
+
         if not dry_run:
             with open(self.path, "w", encoding="utf-8") as f:
                 tomlkit.dump(pyproject, f)
